@@ -46,7 +46,8 @@ META = {
                   "load_history / load_last (what onnx.load returns is exactly the last export carried out: graph "
                   "and every tensor byte for byte), export_history_independent (what an export leaves on disk depends on the "
                   "request only: no append, no growth), sidecar_is_exactly_the_spilled_tensors, "
-                  "stale_never_referenced, web_self_contained, modes_agree, "
+                  "stale_never_referenced, web_self_contained, modes_agree, removes_only_if_nothing_spilled / "
+                  "kept_when_nested_spilled / noGuard_loses_nested_tensor (the post-save clean-up with tensors of nested graphs), "
                   "layout_step (driver machine = projection of the byte-level machine with the installed onnx's "
                   "rule len+33 >= 1 MiB), export_succeeds_partial / export_always_succeeds_refuted / "
                   "refused_export_drops_sidecar (residual), regression examples about the pre-fix step.",
@@ -60,7 +61,7 @@ META = {
     "design_ref": "DESIGN.md §3 C15",
 }
 
-MODS = ["J2O.Props.C15"]
+MODS = ["J2O.Props.C15", "J2O.Props.C15Cleanup"]
 
 # request catalogue: input shape, shapes of the constants (→ initializers)
 REQUESTS: dict[str, dict] = {
